@@ -23,7 +23,7 @@ def vclockOps : CrdtOps (VClock Nat) (Dot Nat) where
   validateMerge := fun _ _ => "ok"
   resetRemove := some VClock.resetRemove
   eq := some (fun a b => some (decide (a = b)))
-  spec := fun K => "clock=" ++ showClock (VClockSpec.ofFun (K.map (·.actor)) (fun a => K.foldl (fun m d => if d.actor = a then max m d.counter else m) 0))
+  spec := fun _ K => "clock=" ++ showClock (VClockSpec.ofFun (K.map (·.actor)) (fun a => K.foldl (fun m d => if d.actor = a then max m d.counter else m) 0))
 
 /-- Rust `<=` on clocks (`PartialOrd::le`) -/
 def vcLe (a b : VClock Nat) : Bool :=
